@@ -20,9 +20,10 @@ def witness_replay(entry):
 
 def run(ctx: Ctx) -> int:
     return ec.run_prop(ctx, "theories/Props/C09.v", ec.ASSUME_COMMON + [
-        "chunk additivity of HitLimitedPeriodicDamageComponent's capped loop is not proved (correspondence + search only)",
+        "HitLimitedPeriodicDamageComponent: proved under the reachable-state invariant hl_inv (cap reached => schedule disabled), which "
+        "every reducer preserves and an accepted use establishes",
         "status equality is stated on the state with the interval counter of an expired Periodic forgotten (no view or reducer reads it)"],
-        known_match, witness_replay, RULE, extra_targets=["theories/Proofs/EDotP.vo"])
+        known_match, witness_replay, RULE, extra_targets=["theories/Proofs/EDotP.vo", "theories/Proofs/CompChunkHL.vo"])
 
 
 def replay(ctx, path):
